@@ -17,7 +17,7 @@ impl std::hash::Hash for TulispObjectEql {
         } else if self.0.eq(&TulispObject::t()) {
             state.write_u8(1);
         } else {
-            state.write_usize(self.0.addr_as_usize());
+            state.write_usize(self.0.eq_addr_as_usize());
         }
     }
 }
